@@ -111,6 +111,17 @@ def generate(seed, tier):
                 pa.setdefault('encr', ['aes256'])
                 pb.pop('encr', None)
     sc['meta']['neg'] = neg
+    if r.random() < 0.4:
+        from sim import byz
+        sc['byz'] = {'kind': r.choice(byz.KINDS_C11), 'seed': r.randrange(2 ** 31)}
+        sc['meta']['byz'] = sc['byz']['kind']
+        if sc['byz']['kind'] == 'invalid_ke_never_offered' and r.random() < 0.6:
+            # group numbers that collide with identifiers of OTHER transform types are the adversary's best bet (only 14 = sha512 is an
+            # implemented group): offer sha512 without offering group 14
+            for c in (ca, cb):
+                if 'sha512' not in c['integ']:
+                    c['integ'] = c['integ'] + ['sha512']
+                c['dh'] = [d for d in c['dh'] if str(d) not in ('14', 'modp2048')] or ['19']
     return sc
 
 
@@ -134,6 +145,8 @@ def judge(w, tap, scenario, reach):
         if not h['R']:
             reqs.setdefault(h['spi_i'], []).append(m)
             continue
+        if m.get('rewritten'):
+            continue             # a response the interposer fabricated: not the daemon's choice
         cands = [q for q in reqs.get(h['spi_i'], []) if q['t'] <= m['t']]
         if not cands:
             continue
@@ -276,9 +289,32 @@ def run(scenario):
         ctx['wire'] = WireLog(w)
         ctx['cov'] = workload.Coverage(w)
         ctx['tap'] = Wiretap(w, check_reencode=False)
+        ctx['reach'] = {}
+        if scenario.get('byz'):
+            from sim import byz
+            from sim.interpose import Interposer
+            ip = ctx['ip'] = Interposer(w, ctx['tap'])
+            rule, verdict = byz.make(scenario['byz']['kind'], scenario['byz']['seed'], w, ip, ctx['tap'], ctx['reach'])
+            ip.rules.append(rule)
+            ctx['byz_verdict'] = verdict
+            w.established_log = []
+
+            class EstLog:
+                def after_step(self, node, cause):
+                    for sa in node.ike_sas():
+                        if int(sa.state) >= 10 and id(sa) not in seen:
+                            seen.add(id(sa))
+                            w.established_log.append({'node': node.name, 'spi_i': sa.my_spi if sa.is_initiator else sa.peer_spi,
+                                                      'spi_r': sa.peer_spi if sa.is_initiator else sa.my_spi})
+            seen = set()
+            w.monitors.append(EstLog())
 
     def at_end(w, ctx):
-        ctx['reach'] = {}
+        if ctx.get('byz_verdict'):
+            v = ctx['byz_verdict'](w)
+            if v is not None:
+                w.violation(PROP, v[0], v[1], v[2])
+                return
         judge(w, ctx['tap'], scenario, ctx['reach'])
     ctx['at_end'] = at_end
     w = execute(scenario, setup, ctx)
